@@ -26,6 +26,7 @@ EXPLANATION = (
     " Added after seed round 7: T10 a prefix minus is folded into a literal only when the operand is a number."
     " Added after seed round 8: T11 is_lower / is_upper accept every letter on which _token_action starts an identifier."
     " Added after seed round 9: T12 no build_* method of a term factory hands out a remembered term under a key that leaves out one of its arguments (memo-key rule, `v = f(..); T[k] = v` followed one step)."
+    " Added after seed round 11: T13 a search for a closing delimiter that is restarted inside a loop looks for the same delimiter as the first search (positive example matched on every run)."
 )
 TECHNIQUE = "static analysis: CFG must-facts (length guards with short-circuit edges), table/range agreement"
 LEVEL_TEXT = EXPLANATION
@@ -928,6 +929,47 @@ def _resolve_ctor(repo, f, call):
     return None
 
 
+def find_restart_mismatches(fnode):
+    """(first, again) pairs of `.find(` calls that advance one variable - `v = s.find(A, ..)` followed by a loop that re-assigns `v = s.find(B, ..)` - and search for different things"""
+    out = []
+    firsts = {}
+    for st in ast.walk(fnode):
+        if isinstance(st, ast.Assign) and len(st.targets) == 1 and isinstance(st.targets[0], ast.Name) and isinstance(st.value, ast.Call) and isinstance(st.value.func, ast.Attribute) \
+                and st.value.func.attr == "find" and st.value.args:
+            firsts.setdefault(st.targets[0].id, []).append(st)
+    for lp in ast.walk(fnode):
+        if not isinstance(lp, ast.While):
+            continue
+        for st in ast.walk(lp):
+            if isinstance(st, ast.Assign) and len(st.targets) == 1 and isinstance(st.targets[0], ast.Name) and st.targets[0].id in firsts and isinstance(st.value, ast.Call) \
+                    and isinstance(st.value.func, ast.Attribute) and st.value.func.attr == "find" and st.value.args:
+                before = [x for x in firsts[st.targets[0].id] if x.lineno < lp.lineno and norm(x.value.func.value) == norm(st.value.func.value)]
+                if before:
+                    out.append((before[-1], st))
+    return out
+
+
+def rule_t13(repo, col):
+    """the tokenizer looks for the closing delimiter of a quoted token with one search that is restarted after every escaped delimiter: first search and restart look for the same
+    character (a string that contains an escaped double quote is otherwise closed at the next single quote, or never)"""
+    pos = find_restart_mismatches(ast.parse("def f(s, pos, q):\n    end = s.find(q, pos + 1)\n    while end != -1 and s[end - 1] == chr(92):\n        end = s.find(\"'\", end + 1)\n    return end\n"))
+    if len(pos) != 1:
+        raise AnalysisError("find-restart rule does not match its positive example")
+    mod = repo.module("problog.parser")
+    n = 0
+    for f in repo.all_functions():
+        if f.module is not mod:
+            continue
+        for first, again in find_restart_mismatches(f.node):
+            n += 1
+            same = norm(first.value.args[0]) == norm(again.value.args[0])
+            col.decide("T13", mod, again, same, "%s restarts its search for %s with the same delimiter" % (f.qualname, norm(first.value.args[0])),
+                       "%s looks for %s first and, after an escaped delimiter, goes on looking for %s: the token `\"a\\\"b\"` that the printer writes for a string holding a double quote is cut "
+                       "at the next single quote (or UnmatchedCharacter) - printed programs no longer read back" % (f.qualname, norm(first.value.args[0]), norm(again.value.args[0])),
+                       construct="%s: restarted search for the closing delimiter" % f.qualname, function=f.qualname)
+    col.floor("T13.restarted_searches", n, 1)
+
+
 def run(repo, col):
     col.rule("T1", "dispatch-table coverage of the tokenizer")
     col.rule("T2", "guard before look-ahead index")
@@ -953,3 +995,5 @@ def run(repo, col):
     rule_t11(repo, col)
     col.rule("T12", "factory builders: no remembered term under an incomplete key")
     rule_t12(repo, col)
+    col.rule("T13", "quoted tokens: the restarted search looks for the same delimiter")
+    rule_t13(repo, col)
